@@ -8,6 +8,7 @@ Layer W: 1..16 columns.  Layer T: decode -> re-encode stability of generated tex
 (C07's format layer) and of every corpus chart.
 """
 import itertools
+import math
 from fractions import Fraction
 
 from .. import core
@@ -24,6 +25,9 @@ BEATS = [
 # beats whose denominators divide 192 but not 48 (32, 64, 96, 192), explored in a layer of their own
 DENOM_BEATS = [Fraction(0), Fraction(5, 32), Fraction(1, 3), Fraction(95, 96), Fraction(135, 64), Fraction(767, 192), Fraction(17, 4)]
 BEATS = sorted(BEATS)
+# denominators of beats for the Q layer (every divisor of 192 that a row count can need, and off-grid ones)
+Q_DENOMS = [1, 2, 3, 4, 5, 6, 7, 8, 10, 12, 16, 24, 32, 48, 64, 96, 192]
+Q_DENOMS_SMALL = [2, 3, 4, 5, 8, 12, 16, 24, 32, 48]
 PLAYERS = (0, 1, 2)
 VARIANTS = [("1", None), ("2", None), ("M", 3), ("1", 3), ("4", None), ("L", 12)]
 
@@ -226,6 +230,43 @@ def explore_shard(acc, shard):
                     report(acc, layer, case, fails)
         acc.outcome("beat with denominator 32/64/96/192")
         acc.sample(layer, case)
+    elif kind == "Q":
+        # every pair / triple of beat denominators inside one measure: the measure must have exactly 4 x lcm rows
+        layer = "Q denominator pairs and triples in one measure"
+        _, part = shard
+        case = None
+        combos = [c for n in (1, 2) for c in itertools.combinations_with_replacement(Q_DENOMS, n)]
+        combos += [c for c in itertools.combinations(Q_DENOMS_SMALL, 3)]
+        lcms = set()
+        for ci, dens in enumerate(combos):
+            if ci % 4 != part:
+                continue
+            for base in (0, 4):  # first measure / second measure
+                for lead in (False, True):  # with or without a note on the measure's first row
+                    stream = [(Fraction(base), 0, "1", 0, None)] if lead else []
+                    for j, d in enumerate(dens):
+                        # numerators 1, d+1, 2d+1 ... : distinct beats of denominator exactly d inside the measure
+                        b = Fraction(base) + Fraction((j % 3) * d + 1, d) if d > 1 else Fraction(base + 1 + j % 3)
+                        stream.append((b, 1, "1", 0, None))
+                    stream = sorted(set(stream))
+                    if len({(n[0], n[1]) for n in stream}) != len(stream):
+                        continue
+                    case = {"kind": "stream", "cols": 2, "stream": fmt_stream(stream)}
+                    core.guard_cheap(acc, case)
+                    fails = check_stream(stream, 2)
+                    lcm = 1
+                    for n in stream:
+                        lcm = lcm * n[0].denominator // math.gcd(lcm, n[0].denominator)
+                    lcms.add(lcm)
+                    acc.count("evaluations")
+                    acc.count("states")
+                    acc.count("transitions")
+                    acc.count("nontrivial")
+                    if fails:
+                        report(acc, layer, case, fails)
+        for q in sorted(lcms):
+            acc.add_key("measure lcm", str(q))
+        acc.sample(layer, case)
     elif kind == "W":
         layer = "W 1..16 columns"
         for cols in range(1, 17):
@@ -296,6 +337,7 @@ def explore(run):
     shards.append(("V",))
     shards.append(("W",))
     shards.append(("D",))
+    shards += [("Q", i) for i in range(4)]
     shapes = N.format_shapes(run.thorough())
     if run.thorough():
         shapes = shapes[:182] + shapes[182::5]
@@ -313,7 +355,8 @@ def explore(run):
         + " x columns, k = "
         + ", ".join(f"{(t if run.thorough() else q)} for {c} column(s)" for c, q, t in plan)
         + " (built note by note; every prefix is a state); V: all 9 types x 4 keysound values on 1- and 2-note streams; "
-        "W: 1..16 columns; T: decode/re-encode of generated texts (rows-per-measure shapes x players x styles) and corpus charts. "
+        "W: 1..16 columns; D: beats with denominators 32..192; Q: every pair of beat denominators from "
+        + ",".join(map(str, Q_DENOMS)) + " (and triples of the smaller ones) in one measure, first and second measure; T: decode/re-encode of generated texts (rows-per-measure shapes x players x styles) and corpus charts. "
         "Non-trivial = at least two notes, or a keysound, or a generated/corpus text."
     )
     run.assumptions = [
@@ -325,6 +368,7 @@ def explore(run):
     core.require(acc.outcomes["off-grid beat"] > 0, "no off-grid beat")
     core.require(acc.outcomes["skipped measure"] > 0, "no skipped measure")
     core.require(acc.outcomes["keysounded note written"] > 0, "no keysound")
+    core.require(acc.distinct("measure lcm") >= 20, "Q layer reached too few distinct row counts")
     return run.finish(
         states=acc.c["states"],
         transitions=acc.c["transitions"],
